@@ -527,14 +527,16 @@ def brief_stack(node):
     k = node["k"]
     if k == "root":
         cols = ",".join(c["c"] for c in node.get("collators", []))
-        return f"root<{node['T']['kind']}{', collators=[' + cols + ']' if cols else ''}>"
+        return f"root<{node['T']['kind']}{', collators=[' + cols + ']' if cols else ''}{', ' + node['rid'] if node.get('rid') else ''}>"
     if k in ("concat", "interleaved"):
         return f"{k}[" + ", ".join(brief_stack(c) for c in node["children"]) + "]"
     inner = brief_stack(node["child"])
+    if node.get("rid"):
+        inner += f" @{node['rid']}"
     if k == "xt":
         return f"XT({S.brief_tree(node['tree'])}; {inner})"
     if k == "mv":
-        return "MV([" + ", ".join(f"{c['n']}x{S.brief_tree(c['tree']) if c.get('tree') else 'id'}" for c in node["configs"]) + f"]; {inner})"
+        return "MV([" + ", ".join(f"{c['n']}x{S.brief_tree(c['tree']) if c.get('tree') else ('plain' if c.get('plain') else 'id')}" for c in node["configs"]) + f"]; {inner})"
     if k == "semseg":
         return "Semseg([" + ", ".join(S.brief_tree(m) for m in node["members"]) + f"]; {inner})"
     if k == "common":
